@@ -390,6 +390,88 @@ fn main() {
         let (p, s, st, refs) = &streams_ref[si];
         unit(ctx_ref, Part::Murmur3, p, *s, st, refs, l, all_max, four_max);
     });
+    // ---- `Partitioner::hash_one` (the one-call entry point) on every input, all three partitioner types
+    {
+        let mut n = 0u64;
+        for (p, sd, st, refs) in &streams {
+            for &l in &lengths {
+                let d = &st[..l];
+                n += 3;
+                let got = [Murmur3Partitioner.hash_one(d).value(), PartitionerName::Murmur3.hash_one(d).value()];
+                let cdc = [CDCPartitioner.hash_one(d).value(), PartitionerName::CDC.hash_one(d).value()];
+                if got.iter().any(|g| *g != refs[l]) {
+                    r.violation("hasher:murmur3:hash_one", &format!("hash_one on {l} bytes of pattern {p}: {got:?}, reference {}", refs[l]), json!({"leg":"hasher","partitioner":"murmur3","path":"Concrete","pattern":p,"pattern_seed":*sd as i64,"data_hex":vcore::hex(d),"chunks":[l]}));
+                }
+                if cdc.iter().any(|g| *g != cqlref::murmur3::cdc_token(d)) {
+                    r.violation("hasher:cdc:hash_one", &format!("CDC hash_one on {l} bytes of pattern {p}: {cdc:?}, reference {}", cqlref::murmur3::cdc_token(d)), json!({"leg":"hasher","partitioner":"cdc","path":"Concrete","pattern":p,"pattern_seed":*sd as i64,"data_hex":vcore::hex(d),"chunks":[l]}));
+                }
+            }
+        }
+        r.eval(n);
+        r.counters.add("hash_one_calls", n);
+    }
+    // ---- long keys: a 16-bit length boundary inside / between chunks, thousands of blocks in one write
+    {
+        let big_len = 65536 + 16 + 9;
+        let mut big = vec![0u8; big_len];
+        vcore::Rng::new(r.args.seed ^ 0xb16).fill(&mut big);
+        for (i, b) in big.iter_mut().enumerate() {
+            if i % 3 == 0 {
+                *b |= 0x80;
+            }
+        }
+        let uniform = |s: usize| -> Vec<usize> {
+            let mut v = vec![s; big_len / s];
+            if big_len % s != 0 {
+                v.push(big_len % s);
+            }
+            v
+        };
+        let splits: Vec<Vec<usize>> = vec![vec![big_len], vec![65535, big_len - 65535], vec![65536, big_len - 65536], vec![65537, big_len - 65537], vec![1, big_len - 1], vec![big_len - 1, 1], vec![15, 65521, big_len - 65536], uniform(4096), uniform(4097), uniform(65535), uniform(17)];
+        for chunks in &splits {
+            for path in [Path::Concrete, Path::Enum] {
+                r.eval(1);
+                let res = catch(|| {
+                    let mut pos = 0usize;
+                    let mut bad: Option<(usize, i64)> = None;
+                    let mut feed = |h: &mut dyn FnMut(&[u8]) -> i64| {
+                        for (ci, c) in chunks.iter().enumerate() {
+                            let t = h(&big[pos..pos + c]);
+                            pos += c;
+                            // reference at a few boundaries only (each is a full one-shot hash)
+                            if (ci < 3 || ci + 3 >= chunks.len()) && bad.is_none() && t != cqlref::murmur3::murmur3_token(&big[..pos]) {
+                                bad = Some((pos, t));
+                            }
+                        }
+                    };
+                    match path {
+                        Path::Concrete => {
+                            let mut h = Murmur3Partitioner.build_hasher();
+                            feed(&mut |d| {
+                                h.write(d);
+                                h.finish().value()
+                            });
+                        }
+                        Path::Enum => {
+                            let mut h = PartitionerName::Murmur3.build_hasher();
+                            feed(&mut |d| {
+                                h.write(d);
+                                h.finish().value()
+                            });
+                        }
+                    }
+                    bad
+                });
+                let case = json!({"leg":"hasher","partitioner":"murmur3","path":format!("{path:?}"),"pattern":"long-key","pattern_seed":0,"data_hex":vcore::hex(&big),"chunks":chunks});
+                match res {
+                    Ok(None) => {}
+                    Ok(Some((pos, t))) => r.violation("hasher:murmur3:long-key", &format!("{big_len}-byte key as {} chunks (first {:?}): after {pos} bytes driver token {t}, reference {}", chunks.len(), &chunks[..chunks.len().min(3)], cqlref::murmur3::murmur3_token(&big[..pos])), case),
+                    Err(p) => r.violation("hasher:murmur3:panic", &format!("{big_len}-byte key as {} chunks panicked: {p}", chunks.len()), case),
+                }
+            }
+        }
+        r.counters.add("long_key_chunkings", 2 * splits.len() as u64);
+    }
     // ---- constructed preimages: keys whose RAW Murmur3 h1 is exactly Long.MIN_VALUE (must come out as
     // Long.MAX_VALUE) and the neighbouring boundary values; one block (all compositions) and two blocks
     let before_pre = r.evaluations.load(Ordering::Relaxed);
@@ -472,7 +554,7 @@ fn main() {
 
     report_best(&r, &best);
     r.set_rule(&format!(
-        "E-ENUM. Murmur3: {} byte patterns (0x00.., 0xFF.., 0x80.., ascending from 0x7E, alternating 0x7F/0x80, seeded fills) x lengths 0..=70 u {{79,80,81,95,96,97,127,128,129,255,256,257}}; every composition of L for L<={all_max} (also with empty writes interleaved for L<=10), every 3-chunk split with empty chunks allowed{} plus uniform chunk streams / 16k+d cut sets / single-byte cuts around each 16-byte boundary for larger L; plus constructed preimages (single-block inversion of Murmur3, cqlref::murmur3::invert_last_block): 16-byte keys (all compositions) and 32-byte keys whose RAW hash is exactly i64::MIN (token must be i64::MAX), MIN+1, MAX, -1, 0, with many different free h2 values; both the concrete hasher and the PartitionerName enum dispatch; finish() compared with the one-shot reference after EVERY prefix. CDC: 9 patterns (incl. first 8 bytes = i64::MIN / i64::MAX) x lengths 0..={cdc_all_max} u {{24,32,33}}, every composition. distinct_nontrivial = chunkings with >=2 chunks in which some write starts at a non-zero buffer fill and completes a 16-byte block (CDC: starts inside the 8-byte buffer and runs past its end).",
+        "E-ENUM. Murmur3: {} byte patterns (0x00.., 0xFF.., 0x80.., ascending from 0x7E, alternating 0x7F/0x80, seeded fills) x lengths 0..=70 u {{79,80,81,95,96,97,127,128,129,255,256,257}}; every composition of L for L<={all_max} (also with empty writes interleaved for L<=10), every 3-chunk split with empty chunks allowed{} plus uniform chunk streams / 16k+d cut sets / single-byte cuts around each 16-byte boundary for larger L; plus Partitioner::hash_one on every input and a 65 561-byte key in 11 chunkings around the 65535/65536 boundary; plus constructed preimages (single-block inversion of Murmur3, cqlref::murmur3::invert_last_block): 16-byte keys (all compositions) and 32-byte keys whose RAW hash is exactly i64::MIN (token must be i64::MAX), MIN+1, MAX, -1, 0, with many different free h2 values; both the concrete hasher and the PartitionerName enum dispatch; finish() compared with the one-shot reference after EVERY prefix. CDC: 9 patterns (incl. first 8 bytes = i64::MIN / i64::MAX) x lengths 0..={cdc_all_max} u {{24,32,33}}, every composition. distinct_nontrivial = chunkings with >=2 chunks in which some write starts at a non-zero buffer fill and completes a 16-byte block (CDC: starts inside the 8-byte buffer and runs past its end).",
         streams.len(),
         format!(", every 4-chunk split for L<={four_max}")
     ));
